@@ -550,7 +550,7 @@ func UnmarshalVectorYAML(value *yaml.Node) (*GeneralizedType, error) {
 		case "length":
 			var length big.Int
 			if err := length.UnmarshalText([]byte(v.Value)); err != nil {
-				return nil, err
+				return nil, parseError(v, "vector length must be an integer")
 			}
 			if length.Sign() < 0 {
 				return nil, parseError(v, "vector length cannot be negative")
@@ -884,7 +884,7 @@ func (dimension *ArrayDimension) UnmarshalYAML(value *yaml.Node) error {
 	if value.Tag == "!!int" {
 		var length big.Int
 		if err := length.UnmarshalText([]byte(value.Value)); err != nil {
-			return err
+			return parseError(value, "array dimension length must be an integer")
 		}
 		if length.Sign() < 0 {
 			return parseError(value, "array dimension length cannot be negative")
@@ -1005,7 +1005,7 @@ func UnmarshalEnumValues(flags bool, value *yaml.Node) (*EnumValues, error) {
 				}
 			} else {
 				if err := val.IntegerValue.UnmarshalText([]byte(v.Value)); err != nil {
-					return nil, err
+					return nil, parseError(v, "enum or flag value must be an integer or empty")
 				}
 			}
 
